@@ -73,10 +73,13 @@ def sqrt_job(prefix, s_alias, d_alias, c_bits, k, must_ok, unwind, timeout=1800,
     name = "%s_sqrt_%s_%s" % (prefix, s_alias.lower(), tag or ("c%d" % c_bits).replace("-", "m"))
     code = "tr_acc_sqrt!(%s, %d, %s, %s, %s, %d, %d, %d, %s);" % (name, unwind, s_alias, d_alias, inner, c_bits, k, fd,
                                                              "true" if must_ok else "false")
-    return Job(name, code, "sqrt::<%s,%s> for all %d operands from %.9g (bits %d): r >= 0 and (r-4)^2 <= x*2^F <= (r+4)^2 in exact "
+    j = Job(name, code, "sqrt::<%s,%s> for all %d operands from %.9g (bits %d): r >= 0 and (r-4)^2 <= x*2^F <= (r+4)^2 in exact "
                "integer arithmetic; 0 and 1 exact; Ok%s" % (s_alias, d_alias, 1 << k, c_bits / 2.0 ** fs, c_bits,
                                                              " required" if must_ok else " not required"),
-               timeout=timeout, inst="sqrt %s->%s" % (s_alias, d_alias), bounds="neighbourhood of 2^%d operands" % k, kf=kf)
+            timeout=timeout, inst="sqrt %s->%s" % (s_alias, d_alias), bounds="neighbourhood of 2^%d operands" % k, kf=kf)
+    if k == 0:
+        j.concrete = "vec![vec![0, 0, 0, 0]]"   # the offset t: u32 is forced to 0
+    return j
 
 
 def trig_job(prefix, fun, alias, base_bits, npieces, pb, unwind, timeout=2400):
